@@ -123,8 +123,10 @@ fn hook_json(evs: &[PlanEvent]) -> (Value, Vec<Value>) {
                 head["start"] = json!({"n": n, "written": written, "startEnabled": start_enabled, "seeds": seeds});
             }
             PlanEvent::Iterate { iteration, stepped, switch_calls, spawned, before_prune, alive } => {
+                // at most 100 pairs are written out (a planner gone exponential has millions); the true count is kept
                 iters.push(json!({"it": iteration, "stepped": stepped, "calls": switch_calls, "spawned": spawned, "before": before_prune,
-                                  "alive": alive.iter().map(|(a, b)| json!([a, b])).collect::<Vec<_>>()}));
+                                  "aliveCount": alive.len(),
+                                  "alive": alive.iter().take(100).map(|(a, b)| json!([a, b])).collect::<Vec<_>>()}));
             }
             PlanEvent::Chosen { cost12, switches } => {
                 head["chosen"] = json!({"cost12": cost12, "switches": switches.iter().map(|(n, m)| json!([n, MODE_BY_INDEX[*m as usize]])).collect::<Vec<_>>()});
@@ -199,7 +201,7 @@ pub fn run_case(idx: usize, c: &PlanCase, focus: &str) -> Vec<Value> {
             }
             for i in ch {
                 steps_before += i["stepped"].as_u64().unwrap_or(0) + 5 * i["calls"].as_u64().unwrap_or(0);
-                prev_alive = i["alive"].as_array().map(|a| a.len() as u64).unwrap_or(0);
+                prev_alive = i["aliveCount"].as_u64().unwrap_or(0);
             }
             out.push(r);
         }
